@@ -16,6 +16,9 @@ def dispatch(prop, tier, replay):
         if extra:
             extra(rep, tier)
         return rep.finish()
+    if prop == "C19":
+        from . import check_c19
+        return check_c19.check(tier).finish()
     if prop == "C20":
         from . import check_c20
         return check_c20.check(tier).finish()
